@@ -556,6 +556,12 @@ class C19(core.Prop):
                 h.get("speed_profile", {}).get("points", [[0.0]])[0][0] > 0 for h in case["platform"]["hosts"]) else ""
             if cpu == "TI" and not tifeat:
                 tifeat = pfeat
+            if cpu == "TI" and not tifeat:
+                # known TI root cause: a completion (in the reference run) on a boundary of the period of the host's profile
+                for e in execs.values():
+                    per = (plat_hosts[e["host"]].get("speed_profile") or {}).get("period", -1)
+                    if per and per > 0 and e["finish"] > 0 and abs(e["finish"] / per - round(e["finish"] / per)) < 1e-9 and round(e["finish"] / per) >= 1:
+                        tifeat = ":completion-at-period-boundary"
             labels.add("cpu:" + cpu)
             labels.add("net:" + net)
             sc2, _, _ = self.scenario(case, cpu, net)
